@@ -101,7 +101,7 @@ PROPS["C01"] = {
 }
 
 PROPS["C10"] = {
-    "deps": ["Proofs/BuilderWf.vo", "Proofs/C12_Final.vo"],
+    "deps": ["Proofs/BuilderWf.vo", "Proofs/C12_Final.vo", "Proofs/BuildErrors.vo", "Proofs/BuildErrorsExamples.vo"],
     "props": "Props/C10.v",
     "suites": [("hist", 1000, 30000), ("reader", 800, 20000)],
     "owner": lambda name: name.startswith("C10.") or name == "C02.built_graph_is_denotation",
@@ -109,7 +109,7 @@ PROPS["C10"] = {
 }
 
 PROPS["C04"] = {
-    "deps": ["Proofs/Reading.vo", "Proofs/C09_Final.vo", "Proofs/ReaderSafe.vo", "Proofs/LangFinal.vo", "Proofs/LangExamples.vo"],
+    "deps": ["Proofs/Reading.vo", "Proofs/C09_Final.vo", "Proofs/ReaderSafe.vo", "Proofs/LangFinal.vo", "Proofs/LangExamples.vo", "Proofs/GrammarOracleFinal.vo"],
     "props": "Props/C04.v",
     "probes": [{"file": "Probes/Reading.v"}],
     "suites": [("reader", 1600, 40000), ("reader_exh", 0, 22621)],
@@ -117,7 +117,7 @@ PROPS["C04"] = {
     "assumptions": ["UTF-8 decoding (str::chars) is std; the model's input is the list of code points"],
 }
 PROPS["C05"] = {
-    "deps": ["Proofs/Reading.vo", "Proofs/LangFinal.vo"],
+    "deps": ["Proofs/Reading.vo", "Proofs/LangFinal.vo", "Proofs/GrammarOracleFinal.vo"],
     "props": "Props/C05.v",
     "probes": [{"file": "Probes/Reading.v", "filter": lambda name: name.startswith("C04.token_")}],
     "suites": [("reader", 1600, 40000), ("reader_exh", 0, 22621)],
